@@ -167,7 +167,8 @@ func (h *attachHook) OnUnsubscribed(cl *mqtt.Client, pk packets.Packet) {
 	r.park(a, "hook.unsubscribed")
 }
 
-var autoPass = map[string]bool{"read.handled": true, "write.afterClosedCheck": true, "disconnect.written": true}
+var autoPass = map[string]bool{"read.handled": true, "write.afterClosedCheck": true, "disconnect.written": true,
+	"loop.dequeued": true, "write.encoded": true, "write.unlocked": true}
 
 // park reports the arrival of handler a at point pt and blocks it until the scheduler releases it. A
 // handler parks at every schedule point, also when it is not its turn (e.g. its read loop ended
